@@ -88,3 +88,67 @@ def run_cases(ses, modname, fname, cases, processes=None):
     for (exp, dt), c in zip(outs, cases):
         ses.absorb(exp)
     return outs
+
+
+# -------------------------------------------------------------------------------------------------
+# parallel path exploration: each path of a unit is run (and checked) in a worker process
+# -------------------------------------------------------------------------------------------------
+def _path_worker(args):
+    modname, fname, payload, decisions = args
+    import importlib
+    import sys
+
+    sys.setrecursionlimit(20000)
+    t = time.time()
+    try:
+        mod = importlib.import_module(modname)
+        export, final = getattr(mod, fname)(payload, list(decisions))
+    except Exception:
+        sub = Session(payload.get("prop", "?"), tier=payload.get("tier", "quick"))
+        sub.crashed = f"path {decisions!r}: " + traceback.format_exc()
+        export, final = sub.export(), list(decisions)
+    return export, final, list(decisions), time.time() - t
+
+
+def explore_parallel(ses, modname, fname, payload, processes=None, max_paths=600):
+    """Run fname(payload, decisions) -> (session export, final decision list) for every path of a unit.
+    New prefixes are scheduled as soon as a path reports the forks it met."""
+    processes = processes or max(1, (os.cpu_count() or 2))
+    n_paths = 0
+    if processes <= 1 or os.environ.get("PYVC_SERIAL"):
+        stack = [[]]
+        while stack:
+            dec = stack.pop()
+            export, final, _, _ = _path_worker((modname, fname, payload, dec))
+            ses.absorb(export)
+            n_paths += 1
+            if n_paths > max_paths:
+                ses.undecided(f"{payload.get('prop')}/{payload.get('unit')}/paths", f"more than {max_paths} paths")
+                break
+            for i in range(len(dec), len(final)):
+                stack.append(final[:i] + [False])
+        return n_paths
+    ctx = mp.get_context("fork")
+    with ctx.Pool(processes) as pool:
+        pending = [pool.apply_async(_path_worker, ((modname, fname, payload, []),))]
+        while pending:
+            nxt = []
+            progressed = False
+            for job in pending:
+                if not job.ready():
+                    nxt.append(job)
+                    continue
+                progressed = True
+                export, final, dec, _ = job.get()
+                ses.absorb(export)
+                n_paths += 1
+                for i in range(len(dec), len(final)):
+                    if n_paths + len(nxt) > max_paths:
+                        break
+                    nxt.append(pool.apply_async(_path_worker, ((modname, fname, payload, final[:i] + [False]),)))
+            pending = nxt
+            if not progressed:
+                time.sleep(0.02)
+    if n_paths > max_paths:
+        ses.undecided(f"{payload.get('prop')}/{payload.get('unit')}/paths", f"more than {max_paths} paths")
+    return n_paths
